@@ -100,7 +100,7 @@ def run(case, schedule, crashes=(), seed=0, store="file"):
     """-> dict(outcome, terminals, requests, steps, ops, in_progress, exceptions, quiescent, unacked, ready)"""
     from .. import world as W
     from .. import harness as H
-    w = W.World(seed=seed, tick=1e-6, orphan_retention_ms=600000, execution_ttl=TTL, store=store)
+    w = W.World(seed=seed, tick=1e-6, orphan_retention_ms=case.get("orphan_retention_ms", 600000), execution_ttl=TTL, store=store)
     out = {}
     try:
         eng = w.add_engine("A")
@@ -249,6 +249,7 @@ def judge(case, base, got, crashes):
 def evaluate(c):
     """c: dict(definition,input,oracle,type,schedule,crashes) -> (fails, nontrivial, info)"""
     case = {k: c[k] for k in ("definition", "input", "oracle", "type")}
+    case.update({k: c[k] for k in ("dup_replies", "dups_known", "orphan_retention_ms") if k in c})       # (options of the directed families travel with the case)
     base = run(case, c["schedule"], (), store=c.get("store", "file"))
     if base["exceptions"] or not base["quiescent"]:
         return [], False, {"skipped": "baseline not clean"}
@@ -378,6 +379,8 @@ def rebuildable_shard(k, seed, tier, nshards=1):
         if j % nshards != k:
             continue
         c = {"definition": case["definition"], "input": case["input"], "oracle": case["oracle"], "type": case["type"], "schedule": [], "crashes": [p]}
+        if case.get("dups_known"):
+            c["dups_known"] = True
         try:
             got = run(case, [], [p])
             fails, nt = judge(case, base, got, [p])
@@ -399,7 +402,9 @@ def orphan_cases():
     two = {"StartAt": "T0", "States": {"T0": T("quick", Next="T1"), "T1": T("slow1", Next="T2"), "T2": T("quick", End=True)}}
     out = [{"definition": d, "input": {"x": 1}, "oracle": oracle, "type": "STANDARD", "label": lab} for lab, d in (("one-task", one), ("three-tasks", two))]
     # a worker that answers twice: two replies with the same correlation id are waiting when the engine comes back
-    return out + ([dict(out[0], label="one-task-worker-replies-twice", dup_replies=0.5)] if env.TIER == "thorough" else [])
+    # (in the quick tier only its single-crash runs are made: see orphan_shard)
+    # (a second reply stays an orphan until its retention runs out: 20 virtual seconds here instead of the ten minutes of the other runs, to keep the runs short)
+    return out + [dict(out[0], label="one-task-worker-replies-twice", dup_replies=0.5, orphan_retention_ms=20000)]
 
 
 def orphan_shard(k, seed, tier, nshards=1):
@@ -407,9 +412,11 @@ def orphan_shard(k, seed, tier, nshards=1):
     second crash after every single broker operation of the recovery, under schedules that deliver the waiting reply before / after the redelivered Task event."""
     camp = Campaign(PID, rule=RULE, tier=tier, seed=seed)
     jobs = []
-    scheds = [[], [1] * 12, [0, 0, 0, 0] + [1] * 8, [2] * 12] if tier != "thorough" else [[], [1] * 12, [0, 0, 0, 0] + [1] * 8, [2] * 12, [0, 1] * 6, [1, 0] * 6, [0, 0, 1, 1] * 3, [3] * 12]
+    scheds = [[], [1] * 12, [0, 0, 0, 0] + [1] * 8, [2] * 12, [0, 1] * 6] if tier != "thorough" else [[], [1] * 12, [0, 0, 0, 0] + [1] * 8, [2] * 12, [0, 1] * 6, [1, 0] * 6, [0, 0, 1, 1] * 3, [3] * 12]
     for case in orphan_cases():
         for sched in scheds:
+            if case.get("dup_replies") and tier != "thorough" and sched not in ([], [0, 1] * 6):
+                continue
             base = run(case, sched, ())
             if base["exceptions"] or not base["quiescent"]:
                 camp.harness_error("baseline of the orphaned-reply case %s is not clean" % case["label"])
@@ -430,14 +437,16 @@ def orphan_shard(k, seed, tier, nshards=1):
                 if got_["outcome"] is not None and got_["timers_left"] and not got_["unacked"]:
                     return [("timer-left-armed-after-restart:%s" % "+".join(sorted(set(c_["mode"] for c_ in cr_))), "%r still armed after the execution ended %s" % (got_["timers_left"][:3], got_["outcome"]["status"]))]
                 return []
-            c0 = {"definition": case["definition"], "input": case["input"], "oracle": case["oracle"], "type": case["type"], "schedule": sched, "crashes": [c1], "dup_replies": case.get("dup_replies", 0)}
+            c0 = {"definition": case["definition"], "input": case["input"], "oracle": case["oracle"], "type": case["type"], "schedule": sched, "crashes": [c1], "dup_replies": case.get("dup_replies", 0), "orphan_retention_ms": case.get("orphan_retention_ms", 600000)}
             fails0, nt0 = judge(case, base, first, [c1])
             camp.case(c0, nontrivial=bool(nt0), classes=["orphaned-reply-" + case["label"], "crash-between", "crashes-1"])
             for b, d in fails0 + timers(first, [c1]):
                 camp.fail(b, c0, d)
+            if case.get("dup_replies") and tier != "thorough":
+                continue        # (the second reply is retained as an orphan for ten virtual minutes: the double-crash enumeration of this case is left to the thorough tier)
             for n in range(1, first["ops"] + 1):
                 cr = [c1, {"mode": "op", "n": n, "down": 0}]
-                c = {"definition": case["definition"], "input": case["input"], "oracle": case["oracle"], "type": case["type"], "schedule": sched, "crashes": cr, "dup_replies": case.get("dup_replies", 0)}
+                c = {"definition": case["definition"], "input": case["input"], "oracle": case["oracle"], "type": case["type"], "schedule": sched, "crashes": cr, "dup_replies": case.get("dup_replies", 0), "orphan_retention_ms": case.get("orphan_retention_ms", 600000)}
                 got = run(case, sched, cr)
                 fails, nt = judge(case, base, got, cr)
                 camp.case(c, nontrivial=bool(nt), classes=["orphaned-reply-" + case["label"], "crash-between+op", "crashes-2"] + (["in-progress"] if nt else ["outside-execution"]))
